@@ -760,11 +760,12 @@ def case_csv(run: Run, rng):
 # -------------------------------------------------------------------------------------------------
 
 
-def run(ctx: Ctx):
+def run(ctx: Ctx, prove: bool = True):
     from translator import extract_writers
 
     info = extract_writers.main()
-    ctx.proof = common.prove("C17")
+    if prove:
+        ctx.proof = common.prove("C17")
     rng = ctx.rng
     for r in info["rows"]:
         ROWLINE.setdefault(r["writer"], r["line"])
@@ -835,11 +836,22 @@ def escalate_unexplained(ctx: Ctx):
 
 
 def replay(payload):
+    """re-run the generator with the recorded seed and tier (the inputs are a deterministic function of them) and
+    report whether the recorded oracle failure occurs again on the tree under test"""
     import json
 
     c = payload.get("replay", payload)
-    print("key:", payload.get("key"))
+    key = payload.get("key")
+    print("key:", key)
     print("what:", payload.get("what"))
-    print(json.dumps(c, indent=1, default=str)[:3000])
-    print(f"re-run `VERIF_SEED={payload.get('seed', 0)} ./check C17 --tier {payload.get('tier', 'quick')}` to regenerate this input")
+    print("recorded input:", json.dumps(c, indent=1, default=str)[:1500])
+    ctx = Ctx("C17", payload.get("tier", "quick"), int(payload.get("seed", 0)))
+    run(ctx, prove=False)
+    if ctx._driver:
+        ctx._driver.close()
+    hit = [v for v in ctx.violations if v.key == key]
+    if hit:
+        print("VIOLATION reproduced:", hit[0].what[:400])
+        return 1
+    print("not reproduced with seed", payload.get("seed", 0), "tier", payload.get("tier", "quick"))
     return 0
